@@ -229,6 +229,30 @@ def main() -> int:  # noqa: C901, PLR0912, PLR0915
                     listed += 1
                     lines.append(f"KNOWN-FINDING: property={prop} signature={body['signature']} {known[body['signature']]}")
                     continue
+        if r1 == r2 and r1[0] == 0 and "repeat" not in body:
+            # clean in a fresh process although the exploring worker saw the violation: the library
+            # carries state from one use to the next (a module-level table, an id()-keyed memo).
+            # Replay the same execution several times in ONE fresh process; what that shows -
+            # identically, twice - is reproducible for a reader and is reported.
+            body["repeat"] = 4
+            body["note"] = "violated only when the execution is repeated within one process (the library keeps state between uses)"
+            with open(path, "w") as fh:
+                json.dump(body, fh, indent=1, default=repr)
+            r1 = _replay_digest(path)
+            r2 = _replay_digest(path)
+            if r1 == r2 and r1[0] == 3:
+                out = subprocess.run([PY, "-m", "hv.replay", path, "--sigs"], env=_env(), cwd=ROOT, capture_output=True, text=True)
+                try:
+                    fresh = json.loads(out.stdout.strip().splitlines()[-1])
+                except (ValueError, IndexError):
+                    fresh = []
+                if fresh:
+                    body["signature"], body["clause"] = fresh[0]["signature"], fresh[0]["clause"]
+                    body["expected"], body["observed"] = fresh[0]["expected"], fresh[0]["observed"]
+                    with open(path, "w") as fh:
+                        json.dump(body, fh, indent=1, default=repr)
+                    r1 = _replay_digest(path)
+                    r2 = _replay_digest(path)
         if r1 != r2 or r1[0] != 1:
             harness_errors.append(
                 f"replay of {path} not reproducible: first={r1} second={r2} (nondeterminism)"
